@@ -387,15 +387,15 @@ def encodeCall : List Step → Nat → Bytes × List Step × Bool
         -- `b.length ≤ free`, decided without walking the whole slice
         match b.drop free with
         | [] =>
-          let (o, r, e) := encodeCall rest (free - b.length)
-          (b ++ o, r, e)
+          let r := encodeCall rest (free - b.length)
+          (b ++ r.1, r.2.1, r.2.2)
         | tail => (b.take free, .slice tail :: rest, false)
       | atom =>
         match atomBytes atom with
         | none => ([], rest, true)
         | some bs =>
-          let (o, r, e) := encodeCall rest (free - bs.length)
-          (bs ++ o, r, e)
+          let r := encodeCall rest (free - bs.length)
+          (bs ++ r.1, r.2.1, r.2.2)
 
 /-- Everything a step list will ever produce (`none` if some VLI is out of range). -/
 def flattenSteps : List Step → Option Bytes
@@ -405,16 +405,27 @@ def flattenSteps : List Step → Option Bytes
     | some a, some b => some (a ++ b)
     | _, _ => none
 
+/-- the buffer offered to the next call: (capacity, bytes already in it); default 4096 empty -/
+def headCap : List (Nat × Nat) → Nat × Nat
+  | [] => (4096, 0)
+  | c :: _ => c
+
+/-- the buffers after that; the last one repeats forever -/
+def tailCaps : List (Nat × Nat) → List (Nat × Nat)
+  | [] => []
+  | [c] => [c]
+  | _ :: cs => cs
+
+def capFree (c : Nat × Nat) : Nat := c.1 - min c.2 c.1
+
 /-- Run `encode` over a sequence of (capacity, prefill) buffers, repeating the last one, until the
     step list is empty; `fuel` bounds the number of calls. -/
 def encodeRun : Nat → List Step → List (Nat × Nat) → List Bytes → (List Bytes × Bool)
   | 0, _, _, acc => (acc.reverse, true)
   | fuel + 1, steps, caps, acc =>
-    let (cap, pre) := match caps with | [] => (4096, 0) | c :: _ => c
-    let caps' := match caps with | [] => [] | [c] => [c] | _ :: cs => cs
-    let (o, r, e) := encodeCall steps (cap - min pre cap)
-    if e then ((o :: acc).reverse, true)
-    else if r.isEmpty then ((o :: acc).reverse, false)
-    else encodeRun fuel r caps' (o :: acc)
+    let res := encodeCall steps (capFree (headCap caps))
+    if res.2.2 then ((res.1 :: acc).reverse, true)
+    else if res.2.1.isEmpty then ((res.1 :: acc).reverse, false)
+    else encodeRun fuel res.2.1 (tailCaps caps) (res.1 :: acc)
 
 end GV
